@@ -1556,6 +1556,11 @@ impl Tree {
 		let checkpoint = DatabaseCheckpoint::new(Arc::clone(&self.core.inner));
 		let metadata = checkpoint.restore_from_checkpoint(checkpoint_dir)?;
 
+		// The block cache is keyed by table id / value-log file id. The restored
+		// timeline re-issues ids that the discarded timeline already used, so
+		// anything cached so far may describe a file that no longer exists.
+		self.core.inner.opts.block_cache.clear();
+
 		// Step 2: Reload in-memory state to match restored files
 
 		// Create a new LevelManifest from the current path
